@@ -2,9 +2,9 @@
    and Drain::next (re-translated from /repo on every run), evaluated by the IR semantics in the machine
    world with the function-boundary semantics of EquivElem.v, in terms of the list model. *)
 From Coq Require Import ZArith List Bool Lia Permutation.
-From MV Require Import Ast Eval Scalar Machine EquivDefs Prims EquivTac EquivElem EquivPop EquivRemove EquivInsert EquivSwapRemove EquivIter EquivExtSlice EquivExtend DrainAt EquivDropGuard.
+From MV Require Import Ast Eval Scalar Machine EquivDefs Prims EquivTac EquivElem EquivPop EquivRemove EquivInsert EquivSwapRemove EquivIter EquivExtSlice EquivExtend DrainAt EquivDropGuard EquivDeref.
 From MV.Gen Require Import AstGen.
-From MV.Proofs Require Import Arith Logic Prim View OpsLocal Guards Grow CapHistory Drops Retain DrainIt Sentinel Core Refine IterAt Resize Clone CloneSlice Extend DrainGuardAt SplitOff.
+From MV.Proofs Require Import Arith Logic Prim View OpsLocal Guards Grow CapHistory Drops Retain DrainIt Sentinel Core Refine IterAt Resize Clone CloneSlice Extend DrainGuardAt SplitOff Deref.
 Import ListNotations.
 Open Scope list_scope.
 Open Scope Z_scope.
@@ -236,5 +236,17 @@ Section SourceSpecs.
     rewrite Hnext, Hled in H. cbn [app] in H.
     destruct (extend cfg ncap w sc s1) as [[a| | | | |] s']; simpl in *; try tauto.
     destruct H as (k & _ & _ & Hl & _). exact Hl.
+  Qed.
+  (* Deref::deref -- the view every `&v[..]`, `v.iter()`, comparison, Hash and Debug goes through -- as
+     regenerated: the slice is exactly the list of the vector's elements, and looking changes nothing *)
+  Theorem deref_source s v l :
+    vabs cfg s v l ->
+    runm cfg ncap deref__MiniVec__deref_ast [VObj v] s = (Norm (slice_of l), s).
+  Proof.
+    intros Hab. rewrite deref_equiv. unfold lift_m.
+    destruct Hab as [[Hs ->]|(b & bl & Hv & Hb & Ho & <-)].
+    - rewrite (sn_deref cfg s v Hs). reflexivity.
+    - rewrite (deref_at cfg Hcfg s v b bl Hv Hb (ow_init _ _ Ho) (ow_nodup _ _ Ho)); [reflexivity|].
+      intros e He. right. apply (ow_live _ _ Ho). exact He.
   Qed.
 End SourceSpecs.
